@@ -137,6 +137,15 @@ Qed.
 
 (* ------------------------------------------------------------------ the property's sentences *)
 
+Theorem load_meets_spec_domain :
+  forall sh to_real pfx d f env tenv,
+    perm_fun sh -> domain to_real pfx d f env tenv ->
+    exists t, load sh to_real false false pfx d (Some f) env = Ok t /\ Tidy (Map t) /\
+              forall p, view p (Map t) = spec_view d f tenv p.
+Proof.
+  intros sh to_real pfx d f env tenv Hs (H1 & H2 & H3 & H4). apply load_meets_spec; assumption.
+Qed.
+
 (** "the result does not depend on the order in which environment variables are
     enumerated" — nor on the iteration order of any Go map on the way *)
 Theorem env_order_independent :
